@@ -215,7 +215,7 @@ func PadFloats(vs []float64, n int) []float64 {
 // length around typical block thresholds.
 func GenPad(t *rapid.T) int {
 	if Chance(t, "padHuge", 1, 400) { // beyond 65536 samples, not a multiple of 4
-		return rapid.SampledFrom([]int{65537, 65538, 65539, 70001}).Draw(t, "padHugeLen")
+		return rapid.SampledFrom([]int{65537, 65538, 65539, 70001, 131073, 150001}).Draw(t, "padHugeLen")
 	}
 	if rapid.IntRange(0, 3).Draw(t, "padSel") != 0 {
 		return 0
